@@ -816,5 +816,4 @@ def ForEqWhile : Prop :=
     (∀ se, step = some se → ∀ env v, eval env se = .ok v → v.tag = se.ty ∧ stepSign p v ≠ .ok .zero) →
     Equiv [zl, zs] (.forLoop x t lo hi step body p) st'
 
---NEXT--
 end RbThm.C02
